@@ -190,6 +190,67 @@ static void check_fir(int m, int n, CoefKind ck, int ik, bool cplx, vh::Rng& r) 
         }
     }
 
+    //---- taps edited in place through the non-const coeffs() accessor between two calls: from then on the output is the sum with
+    //the coefficient vector the filter reports (the input history is kept)
+    if (n >= 8 && m >= 2) {
+        const int n1 = n / 2;
+        arr_cmplx h2 = h;
+        const int ke = int(r.below(uint64_t(m)));
+        h2[ke] = h2[ke] + cmplx_t{1.5, cplx ? -0.75 : 0.0};
+        if (m > 2) {
+            h2[(ke + 1) % m] = cmplx_t{0, 0};
+        }
+        arr_cmplx ye;
+        arr_cmplx x1(n1), x2(n - n1);
+        for (int i = 0; i < n1; ++i) {
+            x1[i] = x[i];
+        }
+        for (int i = n1; i < n; ++i) {
+            x2[i - n1] = x[i];
+        }
+        bool reported_ok = true;
+        if (cplx) {
+            dl::FirFilterC f(h);
+            ye = f.process(x1);
+            f.coeffs()[ke] = h2[ke];
+            if (m > 2) {
+                f.coeffs()[(ke + 1) % m] = h2[(ke + 1) % m];
+            }
+            const dl::FirFilterC& cf = f;
+            reported_ok = bit_equal(cf.coeffs(), h2);
+            ye |= f.process(x2);
+        } else {
+            dl::FirFilterR f(dl::real(h));
+            ye = dl::complex(f.process(dl::real(x1)));
+            f.coeffs()[ke] = h2[ke].re;
+            if (m > 2) {
+                f.coeffs()[(ke + 1) % m] = h2[(ke + 1) % m].re;
+            }
+            const dl::FirFilterR& cf = f;
+            reported_ok = bit_equal(cf.coeffs(), dl::real(h2));
+            ye |= dl::complex(f.process(dl::real(x2)));
+        }
+        CV yref2;
+        RV mag2;
+        fir_ref(to_ref(h2), to_ref(x), yref2, mag2);
+        vh::obs_add("coefficient_edits_through_accessor");
+        bool ok = reported_ok && ye.size() == n;
+        int bad = -1;
+        for (int i = 0; ok && i < n; ++i) {
+            const C want = (i < n1) ? yref[i] : yref2[i];
+            const ld mg = (i < n1) ? mag[i] : mag2[i];
+            if (!(ref::cabs(C{ye[i].re, ye[i].im} - want) <= std::max(8, m + 4) * ref::EPS * mg)) {
+                ok = false;
+                bad = i;
+            }
+        }
+        if (!ok) {
+            vh::violation(vh::fmt("C07/direct/coeffs_accessor/%s", cplx ? "complex" : "real"),
+                          cfg + vh::fmt(": after editing tap %d through coeffs() between two calls (split at %d) output sample %d is not the sum with the coefficients the filter reports (coeffs() reports the edit: %s)", ke,
+                                        n1, bad, reported_ok ? "yes" : "no"));
+        }
+    }
+
     //---- FFT form
     dl::FftFilter ff = cplx ? dl::FftFilter(h) : dl::FftFilter(dl::real(h));
     const int blk = ff.block_size();
@@ -465,6 +526,33 @@ int main(int argc, char** argv) {
             const int n1 = int(r.range(49, thorough ? 5000 : 1500));
             const int n2 = int(r.range(49, thorough ? 5000 : 1500));
             check_xcorr(n1, n2, r.coin(), r);
+        }
+    }
+    //length pairs around the transform-size boundaries: the number of lags n1+n2-1 equal to 2^k-1, 2^k, 2^k+1, 2^k+2
+    for (int k = 5; k <= (thorough ? 13 : 12); ++k) {
+        for (int d = -1; d <= 2; ++d) {
+            const int nlags = (1 << k) + d;
+            for (int split = 0; split < 5; ++split) {
+                if (!vh::mine(idx++)) {
+                    continue;
+                }
+                int n1;
+                switch (split) {
+                case 0: n1 = (nlags + 1) / 2; break;       //equal lengths (autocorrelation overloads)
+                case 1: n1 = nlags / 3 + 1; break;
+                case 2: n1 = std::min(nlags, 70); break;
+                case 3: n1 = std::max(1, nlags - 69); break;
+                default: n1 = 1 + int(vh::rng_for("xcsplit", uint64_t(k) * 10 + uint64_t(d + 1)).below(uint64_t(nlags))); break;
+                }
+                const int n2 = nlags + 1 - n1;
+                if (n1 < 1 || n2 < 1) {
+                    continue;
+                }
+                vh::Rng r = vh::rng_for("xcb", (uint64_t(k) * 8 + uint64_t(d + 1)) * 8 + uint64_t(split));
+                check_xcorr(n1, n2, false, r);
+                check_xcorr(n1, n2, true, r);
+                vh::obs_add("xcorr_pairs_at_transform_size_boundaries");
+            }
         }
     }
     vh::sample("xcorr: all (n1,n2) in 1..48 x 1..48 (thorough: 1..96 x 1..96), real and complex, every lag -(n2-1)..n1-1 against the defining sum");
